@@ -563,12 +563,23 @@ def rule_load_keeps_record(ctx) -> None:
     n_loops = 0
     # sibling re-keying loops: the writer's (before the payload is serialised) and the boot loader's
     hosts = [f for f in ctx.prog.module(SNAP).funcs.values()
-             if any(isinstance(x, ast.For) and isinstance(x.iter, ast.Call) and call_tail(x.iter) == "items" for x in walk_no_defs(f.node))
+             if any(isinstance(x, ast.For) and _items_call(x.iter)[0] is not None for x in walk_no_defs(f.node))
              and any(isinstance(c, ast.Call) and call_tail(c) in ("_sanitize_gel_for_write", "_sanitize_gel_for_load") for c in walk_no_defs(f.node)) and f.qual != w.qual]
+    REKEY_ORDER.clear()
     for ld in sorted(hosts, key=lambda f: f.qual):
         ctx.analysed_funcs.add(ld.qual)
         n_loops += _rekey_loops(ctx, ld, wfields, set_by, key_forms)
     ctx.floor("C06.TABLE", "re-keying loops over the edge map (writer + loader)", n_loops, 2)
+    # "snapshotting the loaded state again reproduces the same body byte for byte": the body lists the edges in the order of the
+    # state's map.  The writer's and the loader's re-keying loops must rebuild the map in the SAME order (both as listed, or both
+    # through the same sort): a loader that files the records in sorted-key order while the writer keeps insertion order gives a
+    # loaded state whose next snapshot has the same edges in another order.
+    orders = {q: o for q, o in REKEY_ORDER.items() if any(q == h.qual for h in hosts)}
+    if orders:
+        ctx.check(len(set(orders.values())) == 1, "C06.TABLE", f"{SNAP}/rekey-siblings-keep-the-same-order", "clematis/engine/snapshot.py",
+                  f"writer and loader rebuild the edge map in the same order ({sorted(set(orders.values()))[0]})",
+                  f"the re-keying loops rebuild the edge map in different orders { {k.split(':')[-1]: v for k, v in sorted(orders.items())} }: the state loaded from a snapshot lists its edges in another "
+                  "order than the state that was written, and snapshotting it again gives a different body (same edges, other byte order)")
     vals = list(set_by.values())
     ctx.check(len(vals) >= 2 and all(v == vals[0] for v in vals), "C06.TABLE", f"{SNAP}/rekey-siblings-set-the-same-fields", "clematis/engine/snapshot.py",
               f"the writer's and the loader's re-keying loops set the same fields ({sorted(vals[0]) if vals else []})",
@@ -644,11 +655,32 @@ def _key_forms(ctx, ld: Func, lp: ast.For, recs: Set[str], sink_maps: Set[str], 
                         forms |= {"key:" + a for a in atoms(k, n)}
 
 
+def _items_call(it: ast.AST):
+    """(the `<map>.items()` call, the order-changing wrapper or None) for an iterable of the forms m.items() / list(m.items()) /
+    sorted(m.items(), ...) / reversed(...)"""
+    wrap = None
+    for _ in range(3):
+        if isinstance(it, ast.Call) and call_tail(it) == "items":
+            return it, wrap
+        if isinstance(it, ast.Call) and dotted(it.func) in ("sorted", "reversed", "list", "tuple") and it.args:
+            if dotted(it.func) in ("sorted", "reversed"):
+                wrap = wrap or it
+            it = it.args[0]
+            continue
+        break
+    return None, None
+
+
+REKEY_ORDER: Dict[str, str] = {}
+
+
 def _rekey_loops(ctx, ld: Func, wfields: Set[str], set_by: Dict[str, Set[str]], key_forms: Dict[str, Set[str]]) -> int:
     n_loops = 0
     for lp in [x for x in walk_no_defs(ld.node) if isinstance(x, ast.For)]:
-        if not (isinstance(lp.iter, ast.Call) and call_tail(lp.iter) == "items" and isinstance(lp.target, ast.Tuple) and len(lp.target.elts) == 2 and isinstance(lp.target.elts[1], ast.Name)):
+        items, wrap = _items_call(lp.iter)
+        if not (items is not None and isinstance(lp.target, ast.Tuple) and len(lp.target.elts) == 2 and isinstance(lp.target.elts[1], ast.Name)):
             continue
+        REKEY_ORDER[ld.qual] = ("map order" if wrap is None else src(wrap.func) + "(" + (src(kwarg(wrap, "key"))[:40] if isinstance(wrap, ast.Call) and kwarg(wrap, "key") is not None else "") + ")")
         rec = lp.target.elts[1].id
         stores = [x for st in lp.body for x in walk_no_defs(st) if isinstance(x, ast.Assign) and any(isinstance(t, ast.Subscript) and isinstance(t.value, ast.Name) for t in x.targets)]
         # names holding the record or a copy of it inside the loop
